@@ -698,8 +698,22 @@ def log_method_noop(ex, g, fid, args):
 
 @exact("fmt.Sprintf", "fmt.Sprint", "fmt.Sprintln")
 def fmt_sprintf(ex, g, fid, args):
-    # only used for messages; the text is not modelled beyond being some string
+    # "%s@%s" (address composition) is modelled exactly; any other format is only ever used for
+    # messages and is not modelled beyond being some string
     if fid == "fmt.Sprintf":
+        if args[0] == gostr("%s@%s"):
+            parts = []
+            for a in slice_elems(args[1]):
+                v = a.val if isinstance(a, Iface) else a
+                if isinstance(v, tuple):
+                    parts.append(v)
+                elif isinstance(v, Slice):
+                    parts.append(tuple(slice_elems(v)))
+                else:
+                    raise Unsupported("fmt.Sprintf(%s@%s) with a non-text operand")
+            if len(parts) != 2:
+                raise Unsupported("fmt.Sprintf(%s@%s) operand count")
+            return parts[0] + (64,) + parts[1]
         return args[0]
     return gostr("<fmt>")
 
